@@ -161,16 +161,177 @@ func Finding(id string, cond bool) {}
 // Limit names the obligation to blame when the VM's depth/step bound is hit.
 func Limit(id string) {}
 
+// ---- goroutines of the harness. Under the VM a context switch between them
+// is a solver-decided choice at every Yield / exit / WaitAll; a replay file
+// carries those choices ("sched!k"), and the native runtime below re-enacts
+// them with a baton so that the same interleaving runs against the natively
+// compiled container. Without a replay file the goroutines run free.
+
+type gstate struct {
+	id      int
+	wake    chan struct{}
+	done    bool
+	waiting bool
+}
+
+var (
+	gs       []*gstate
+	cur      *gstate
+	schedSeq []int
+	schedPos int
+	baton    bool
+)
+
+func initSched() {
+	load()
+	if gs != nil {
+		return
+	}
+	main := &gstate{id: 0, wake: make(chan struct{}, 1)}
+	gs = []*gstate{main}
+	cur = main
+	type kv struct {
+		k int
+		v int
+	}
+	var seq []kv
+	for name, v := range rf.Env {
+		n := strings.Trim(name, "|")
+		if strings.HasPrefix(n, "sched!") {
+			var k int
+			fmt.Sscanf(n[len("sched!"):], "%d", &k)
+			seq = append(seq, kv{k, int(v)})
+			baton = true
+		}
+	}
+	for i := 0; i < len(seq); i++ {
+		for j := i + 1; j < len(seq); j++ {
+			if seq[j].k < seq[i].k {
+				seq[i], seq[j] = seq[j], seq[i]
+			}
+		}
+	}
+	for _, e := range seq {
+		schedSeq = append(schedSeq, e.v)
+	}
+	if os.Getenv("VRT_BATON") != "" {
+		baton = true
+	}
+}
+
+func runnable(includeCur bool) []*gstate {
+	var out []*gstate
+	for _, g := range gs {
+		if g.done || g.waiting {
+			continue
+		}
+		if g == cur && !includeCur {
+			continue
+		}
+		out = append(out, g)
+	}
+	return out
+}
+
+func choose(c []*gstate) *gstate {
+	if len(c) == 1 {
+		return c[0]
+	}
+	k := 0
+	if schedPos < len(schedSeq) {
+		k = schedSeq[schedPos]
+	}
+	schedPos++
+	if k >= len(c) {
+		k = 0
+	}
+	return c[k]
+}
+
+func switchTo(next *gstate) {
+	me := cur
+	if next == me {
+		return
+	}
+	cur = next
+	next.wake <- struct{}{}
+	<-me.wake
+}
+
 func Go(name string, f func()) {
-	wg.Add(1)
+	initSched()
+	if !baton {
+		wg.Add(1)
+		go func() {
+			defer wg.Done()
+			f()
+		}()
+		return
+	}
+	g := &gstate{id: len(gs), wake: make(chan struct{}, 1)}
+	gs = append(gs, g)
 	go func() {
-		defer wg.Done()
+		<-g.wake
+		defer func() {
+			g.done = true
+			c := runnable(false)
+			if len(c) == 0 {
+				// only waiters are left: wake main
+				cur = gs[0]
+				gs[0].wake <- struct{}{}
+				return
+			}
+			next := choose(c)
+			cur = next
+			next.wake <- struct{}{}
+		}()
 		f()
 	}()
 }
 
-func Yield()   { runtime.Gosched() }
-func WaitAll() { wg.Wait() }
+func Yield() {
+	initSched()
+	if !baton {
+		runtime.Gosched()
+		return
+	}
+	c := runnable(true)
+	if len(c) == 0 {
+		return
+	}
+	switchTo(choose(c))
+}
+
+func WaitAll() {
+	initSched()
+	if !baton {
+		wg.Wait()
+		return
+	}
+	me := cur
+	for {
+		allDone := true
+		for _, g := range gs {
+			if g != me && !g.done {
+				allDone = false
+			}
+		}
+		if allDone {
+			return
+		}
+		me.waiting = true
+		c := runnable(false)
+		if len(c) == 0 {
+			me.waiting = false
+			return
+		}
+		next := choose(c)
+		cur = next
+		next.wake <- struct{}{}
+		<-me.wake
+		me.waiting = false
+	}
+}
 
 // Quiesce lets container-spawned goroutines run until they are blocked or done.
 func Quiesce() {
